@@ -655,68 +655,70 @@ func (server *SugarDB) evictKeysWithExpiredTTL(ctx context.Context) error {
 		return nil
 	}
 
-	server.keysWithExpiry.rwMutex.RLock()
-
 	database := ctx.Value("Database").(int)
-
-	// Sample size should be the configured sample size, or the size of the keys with expiry,
-	// whichever one is smaller.
-	sampleSize := int(server.config.EvictionSample)
-	if len(server.keysWithExpiry.keys[database]) < sampleSize {
-		sampleSize = len(server.keysWithExpiry.keys)
-	}
-	keys := make([]string, sampleSize)
-
-	deletedCount := 0
 	thresholdPercentage := 20
 
-	var idx int
-	var key string
-	for i := 0; i < len(keys); i++ {
-		for {
-			// Retry retrieval of a random key until we find a key that is not already in the list of sampled keys.
-			idx = rand.Intn(len(server.keysWithExpiry.keys))
-			key = server.keysWithExpiry.keys[database][idx]
-			if !slices.Contains(keys, key) {
-				keys[i] = key
-				break
+	for {
+		// Take a copy of this database's volatile keys to sample from.
+		server.keysWithExpiry.rwMutex.RLock()
+		volatile := slices.Clone(server.keysWithExpiry.keys[database])
+		server.keysWithExpiry.rwMutex.RUnlock()
+
+		// Sample size should be the configured sample size, or the number of keys with expiry,
+		// whichever one is smaller.
+		sampleSize := int(server.config.EvictionSample)
+		if len(volatile) < sampleSize {
+			sampleSize = len(volatile)
+		}
+		// If sampleSize is 0, there's nothing to sample.
+		if sampleSize == 0 {
+			return nil
+		}
+
+		// Pick sampleSize distinct keys at random.
+		for i := 0; i < sampleSize; i++ {
+			j := i + rand.Intn(len(volatile)-i)
+			volatile[i], volatile[j] = volatile[j], volatile[i]
+		}
+		keys := volatile[:sampleSize]
+
+		deletedCount := 0
+
+		// Loop through the keys and delete them if they're expired
+		server.storeLock.Lock()
+		now := server.clock.Now()
+		for _, k := range keys {
+			entry, ok := server.store[database][k]
+			// Skip keys that are gone, have no deadline, or whose deadline has not passed.
+			if !ok || entry.ExpireAt == (time.Time{}) || !entry.ExpireAt.Before(now) {
+				continue
+			}
+			// Delete the expired key
+			deletedCount += 1
+			if !server.isInCluster() {
+				if err := server.deleteKey(ctx, k); err != nil {
+					server.storeLock.Unlock()
+					return fmt.Errorf("evictKeysWithExpiredTTL -> standalone delete: %+v", err)
+				}
+			} else if server.isInCluster() && server.raft.IsRaftLeader() {
+				if err := server.raftApplyDeleteKey(ctx, k); err != nil {
+					server.storeLock.Unlock()
+					return fmt.Errorf("evictKeysWithExpiredTTL -> cluster delete: %+v", err)
+				}
 			}
 		}
-	}
-	server.keysWithExpiry.rwMutex.RUnlock()
+		server.storeLock.Unlock()
 
-	// Loop through the keys and delete them if they're expired
-	server.storeLock.Lock()
-	defer server.storeLock.Unlock()
-	for _, k := range keys {
-		// Delete the expired key
-		deletedCount += 1
-		if !server.isInCluster() {
-			if err := server.deleteKey(ctx, k); err != nil {
-				return fmt.Errorf("evictKeysWithExpiredTTL -> standalone delete: %+v", err)
-			}
-		} else if server.isInCluster() && server.raft.IsRaftLeader() {
-			if err := server.raftApplyDeleteKey(ctx, k); err != nil {
-				return fmt.Errorf("evictKeysWithExpiredTTL -> cluster delete: %+v", err)
-			}
+		log.Printf("%d keys sampled, %d keys deleted\n", sampleSize, deletedCount)
+
+		// If the deleted percentage is under 20% of the sample size, wait for the next round.
+		// Otherwise sample again immediately.
+		if (deletedCount*100)/sampleSize < thresholdPercentage {
+			return nil
 		}
-	}
-
-	// If sampleSize is 0, there's no need to calculate deleted percentage.
-	if sampleSize == 0 {
-		return nil
-	}
-
-	log.Printf("%d keys sampled, %d keys deleted\n", sampleSize, deletedCount)
-
-	// If the deleted percentage is over 20% of the sample size, execute the function again immediately.
-	if (deletedCount/sampleSize)*100 >= thresholdPercentage {
 		log.Printf("deletion ratio (%d percent) reached threshold (%d percent), sampling again\n",
-			(deletedCount/sampleSize)*100, thresholdPercentage)
-		return server.evictKeysWithExpiredTTL(ctx)
+			(deletedCount*100)/sampleSize, thresholdPercentage)
 	}
-
-	return nil
 }
 
 func (server *SugarDB) randomKey(ctx context.Context) string {
